@@ -111,6 +111,9 @@ def check_state(rec, B, tg, tp, r, subsets, rng, dense=True, extras=True):
             rec.check("ent.full", abs(v - r) < 1e-6, case, r > 0, expected=r, observed=v, tags=tags)
         # other forms of the same subsystem: tuple, ndarray of indices, permuted indices, boolean mask
         forms = [("tuple", tuple(A)), ("ndarray", np.array(A)), ("perm", [A[i] for i in rng.permutation(len(A))]), ("mask", _mask_arg(B, A, N))]
+        if B.name == "np":
+            forms += [("np.int64 list", [np.int64(a) for a in A]), ("bool list", [bool(q in A) for q in range(N)]),
+                      ("int32 array", np.array(A, dtype=np.int32))]
         for nm, arg in forms:
             before_arg = np.array(B.np(arg) if nm in ("mask", "ndarray") else arg).copy()
             ok, y = rec.attempt("ent.mask_vs_index", dict(case, form=nm), lambda: S.entropy(arg))
